@@ -28,7 +28,10 @@ def forall(vs, body, patterns=None):
     """ForAll with explicit triggers when they are legal patterns (uninterpreted applications,
     selects, linear terms over the bound variables), else with solver-inferred triggers"""
     if patterns and _pattern_ok(patterns):
-        return z3.ForAll(vs, body, patterns=patterns)
+        try:
+            return z3.ForAll(vs, body, patterns=patterns)
+        except z3.Z3Exception:  # a multi-pattern over terms that are not legal triggers
+            pass
     return z3.ForAll(vs, body)
 
 
@@ -132,6 +135,8 @@ def attr_heap(name: str) -> str:
 def heap_sort(name: str):
     if name.startswith("g:"):
         return ArrVB  # ghost sets
+    if name.startswith("gi:"):
+        return z3.ArraySort(Val, I)  # ghost integer maps
     if name.startswith("a:"):
         return ArrVV
     return HEAP_SORTS[name]
